@@ -1,5 +1,5 @@
 SPECIFICATION Spec
 CONSTANTS MaxLen = 3
-  Sizes = {64, 80}
+  Sizes = {64, 8272}
 INVARIANTS ChainExact PrefixKept Emit
 CHECK_DEADLOCK FALSE
